@@ -31,14 +31,15 @@ def bounds(tier):
             "version fields": "concrete, pairwise distinct digit strings of 1, 2 or 3 digits",
             "pack name": "every shipped pack name (with the empty snapshot name), 'inYT' otherwise",
             "data line": "every byte value for one element (symbolic), whole blocks concretely",
-            "traffic log": "first segment 30/39/48 bytes, second 39/41, then 39; block without quote and backslash bytes",
+            "traffic log": "first segment 30/39/48 bytes, second 39/41, then 39; a block with both quote characters, "
+                           "backslashes and every pair of them; no '[' byte (see the bracket finding)",
             "shipped files": "all snapshot files under tests/snapshots"}
 
 
 ASSUMPTIONS = [
     "the log line prefix is the logging format of the shipped snapshot files ('<date> <time>,<ms> geckolib.utils.shell INFO ')",
-    "traffic-log clause only for segments whose repr() contains no quote or backslash characters (CPython's bytes-repr "
-    "quoting rules are a model of the interpreter, not of the repository)",
+    "traffic-log clause for one pseudo-random block per run (VERIF_SEED-independent, fixed seed) seeded with every pair "
+    "of quote/backslash bytes; blocks containing '[' are excluded (bracket finding)",
     "a snapshot name long enough to embed a whole keyword line ('Snapshot (', 'Config version 1') is outside the bound",
 ]
 SITES = ["hdr.*", "dat.*", "log.*", "file.*"]
@@ -196,7 +197,13 @@ def traffic_log(sx):
     from geckolib.driver import GeckoStatusBlockProtocolHandler
     import random
     rnd = random.Random(7)
-    blk = bytes(b if b not in (0x27, 0x22, 0x5c) else 0x41 for b in (rnd.randrange(256) for _ in range(1024)))
+    # both quote characters, backslashes and every pair of them occur (every full segment also has 0x27 as its
+    # length byte); '[' is kept out: a '[...]' run inside a packet is the bracket finding of the header clause
+    raw = bytearray(b if b != 0x5b else 0x41 for b in (rnd.randrange(256) for _ in range(1024)))
+    for off, pair in ((5, (0x5c, 0x27)), (45, (0x27, 0x5c)), (100, (0x5c, 0x5c)), (200, (0x27, 0x27)), (77, (0x5c, 0x78)),
+                      (300, (0x22, 0x27)), (340, (0x5c, 0x22)), (400, (0x22, 0x22))):
+        raw[off], raw[off + 1] = pair
+    blk = bytes(raw)
     first = [30, 39, 48][sx.choice("first_size", 3)]
     second = [39, 41][sx.choice("second_size", 2)]
     sizes = [first, second]
@@ -212,6 +219,68 @@ def traffic_log(sx):
         snap.parse(line)
     sx.observe("len", len(snap.bytes))
     sx.check(snap.bytes == blk, "log.reassembles-to-the-transferred-block", lambda: f"{len(snap.bytes)} bytes, sizes {sizes[:3]}")
+
+
+def log_file_round_trip(sx):
+    """through a real log file and parse_log_file: blocks whose hex-list line is as long as it can get"""
+    import tempfile
+    import geckolib.utils.shell as shell
+    from geckolib.utils.snapshot import GeckoSnapshot
+    blocks = [bytes([255]) * 1024, bytes([0x10]) * 1024, bytes((i * 7 + 16) % 256 | 0x10 for i in range(1024)), bytes(1024)]
+    with tempfile.TemporaryDirectory() as d:
+        for i, blk in enumerate(blocks):
+            path = os.path.join(d, f"log{i}.txt")
+            with open(path, "w") as f:
+                f.write(PREFIX + "Snapshot (long line)\n")
+                for ln in ("intouch version EN 88 v15.0", "intouch version CO 89 v11.0", "Spa pack inYT 375 v6.0",
+                           "Config version 61", "Log version 61"):
+                    f.write(PREFIX + ln + "\n")
+                f.write(PREFIX + str([hex(x) for x in blk]) + "\n")
+            snaps = GeckoSnapshot.parse_log_file(path)
+            sx.check(len(snaps) == 1 and snaps[0].bytes == blk, "dat.log-file-round-trip",
+                     lambda: f"{len(snaps)} snapshots, {len(snaps[0].bytes) if snaps else 0} bytes")
+            if snaps:
+                sx.check(snaps[0].config_version == 61 and snaps[0].packtype == "inYT", "dat.log-file-header")
+
+
+def same_simulator(sx):
+    """one simulator instance loads every shipped file in turn (the `load` command) and serves each one's own data"""
+    from geckolib.utils.snapshot import GeckoSnapshot
+    from geckolib.utils.simulator import GeckoSimulator
+    from geckolib.utils.shared_command import GeckoCmd
+    from geckolib.driver import GeckoVersionProtocolHandler, GeckoConfigFileProtocolHandler, GeckoStatusBlockProtocolHandler
+    from .c01 import _serve
+    import io
+    import contextlib
+    GeckoCmd._init_logging = lambda self: None
+    sim = GeckoSimulator()
+    P = (DEST[0], DEST[1], SRC_ID, CLI_ID)
+    n = 0
+    for path in sorted(glob.glob(os.path.join(SNAPDIR, "*.snapshot"))):
+        snaps = GeckoSnapshot.parse_log_file(path)
+        if len(snaps) != 1:
+            continue            # `load` refuses files holding several snapshots
+        s = snaps[0]
+        with contextlib.redirect_stdout(io.StringIO()):
+            sim.do_load(path)
+        n += 1
+        r = _serve(sim, GeckoVersionProtocolHandler.request(1, parms=P).send_bytes)
+        h = GeckoVersionProtocolHandler()
+        h.handle(r[0], P)
+        ok = (h.en_build, h.en_major, h.en_minor) == s.intouch_EN
+        r = _serve(sim, GeckoConfigFileProtocolHandler.request(2, parms=P).send_bytes)
+        h = GeckoConfigFileProtocolHandler()
+        h.handle(r[0], P)
+        ok = ok and (h.plateform_key, h.config_version, h.log_version) == (s.packtype, s.config_version, s.log_version)
+        r = _serve(sim, GeckoStatusBlockProtocolHandler.full_request(3, parms=P).send_bytes)
+        got = b""
+        for seg in r:
+            h = GeckoStatusBlockProtocolHandler()
+            h.handle(seg, P)
+            got += h.data
+        ok = ok and got == s.bytes
+        sx.check(ok, "file.same-simulator-serves-the-file-just-loaded", lambda: os.path.basename(path))
+    sx.check(n >= 30, "file.same-simulator-loaded-the-files")
 
 
 def shipped_file(path):
@@ -264,5 +333,7 @@ def units(tier):
     yield Unit("data-element", data_element, max_fanout=400)
     yield Unit("data-blocks", data_blocks, validate=False)
     yield Unit("traffic-log", traffic_log, validate=False)
+    yield Unit("log-file-round-trip", log_file_round_trip, validate=False)
+    yield Unit("same-simulator", same_simulator, validate=False)
     for f in sorted(glob.glob(os.path.join(SNAPDIR, "*.snapshot"))):
         yield Unit("file." + os.path.basename(f)[:-9].replace(" ", "_"), shipped_file(f), validate=False)
